@@ -237,6 +237,7 @@ func runC12(args []string) {
 		pd := filepath.Join(dir, "o", p.pkg)
 		_ = os.MkdirAll(pd, 0o755)
 		for name, src := range p.Files {
+			_ = os.MkdirAll(filepath.Dir(filepath.Join(pd, name)), 0o755)
 			_ = os.WriteFile(filepath.Join(pd, name), []byte("package "+p.pkg+"\n\n"+src), 0o644)
 		}
 		for _, inv := range p.Invoke {
@@ -250,7 +251,11 @@ func runC12(args []string) {
 		if len(p.exit) == 0 || p.exit[0] != 0 {
 			continue
 		}
-		band := filepath.Join(dir, "o", p.pkg, "k_band.go")
+		bandRel := "k_band.go"
+		if _, ok := p.Files["sub/k.go"]; ok {
+			bandRel = "sub/k_band.go"
+		}
+		band := filepath.Join(dir, "o", p.pkg, bandRel)
 		scopes, aliases, err := declaredIdents(band)
 		if err != nil {
 			// The output does not parse. If that is because a keyword was handed out as an identifier,
@@ -263,7 +268,14 @@ func runC12(args []string) {
 			continue // other unparsable output is C04's finding
 		}
 		genChecked++
-		pkgNames := packageLevelNames(p.Files, p.pkg)
+		// package-level names of the package the generated file belongs to (files of the same directory)
+		own := map[string]string{}
+		for name, src := range p.Files {
+			if filepath.Dir(name) == filepath.Dir(bandRel) {
+				own[name] = src
+			}
+		}
+		pkgNames := packageLevelNames(own, p.pkg)
 		gen := readFile(band)
 		report := func(kind, site, detail string) {
 			rc.Add(Finding{Kind: kind, Site: site, Pre: p.Pre, Detail: detail, Witness: "E2: " + p.Name, Replay: map[string]any{"files": p.Files, "generated": gen}})
